@@ -150,7 +150,7 @@ def run(ctx):
     good = [r for r in recs if ver[r['id']]['ok'] and r['kind'] == 'fit' and not r['raised'] and len(r['sma']) > 3][:3]
     bad = []
     for k, r in enumerate(good):
-        r2 = json.loads(json.dumps(r)); r2['id'] = 10**9 + k
+        r2 = core.jcopy(r); r2['id'] = 10**9 + k
         r2['sma'][1], r2['sma'][2] = r2['sma'][2], r2['sma'][1]
         bad.append(r2)
     vb = core.validate_batch(ctx, 'Trace_Iso', bad, 'SelfTest:Iso', shards=1)
